@@ -10,8 +10,8 @@ from ..util import scale_of
 from .C01 import gen_pair
 
 ID = "C02"
-CASES = {"quick": 8000, "thorough": 120000}
-MIN_NONTRIVIAL = {"quick": 600, "thorough": 8000}
+CASES = {"quick": 8000, "thorough": 600000}
+MIN_NONTRIVIAL = {"quick": 600, "thorough": 60576}
 REQUIRED = ["value==exhaustive min-sum", "value==assignment oracle", "sandwich bounds",
             "inf-death rows ignored with warning", "list/int forms agree"]
 RULE = ("pairs of diagrams as in C01 (sizes 0..11 exhaustive, up to 60+60 quick / 300+300 thorough with an independent "
